@@ -95,7 +95,7 @@ def S_engine(monitor, extra=(), name="engine", n=(150, 1500), seed_off=0):
 
 
 def S_prompt(pid):
-    return {"name": "prompt", "harness": lambda t, s: ["prompt", "-n", "8" if t == "quick" else "32", "-seed", str(s)],
+    return {"name": "prompt", "harness": lambda t, s: ["prompt", "-n", "10" if t == "quick" else "40", "-seed", str(s)],
             "driver": None, "monitor": M.mon_prompt(pid), "nontrivial": lambda c: True,
             "sample": lambda c: {"id": c.get("id"), "shape": c.get("shape"), "workflow_yaml": c.get("yaml", "")[-500:], "result": c.get("result"),
                                  "wall_ms": c.get("wall_ms")}}
@@ -107,6 +107,15 @@ def S_foreach_close(monitor, seed_off=0):
             "harness": lambda t, s: ["foreach", "-close", "-n", "20" if t == "quick" else "200", "-seed", str(s + 500 + seed_off), "-tier", t],
             "driver": None, "monitor": monitor, "nontrivial": lambda c: bool(c.get("cancelled")),
             "sample": lambda c: {k: c.get(k) for k in ("id", "result", "cancelled", "close_after_ms", "balance", "goroutine_delta")}}
+
+
+def S_foreach(monitor, seed_off=0):
+    """whole-engine runs of a parent workflow with a foreach step (failing, crashing and alternative-output items, out-of-order
+    completion, parallelism below the number of items) that is NOT closed from outside: the run has to end by itself"""
+    return {"name": "foreach",
+            "harness": lambda t, s: ["foreach", "-n", "40" if t == "quick" else "400", "-seed", str(s + 700 + seed_off), "-tier", t],
+            "driver": None, "monitor": monitor, "nontrivial": lambda c: len(c.get("items") or []) >= 2,
+            "sample": lambda c: {k: c.get(k) for k in ("id", "result", "balance", "goroutine_delta")}}
 
 
 def engine_sample(case):
@@ -128,7 +137,7 @@ PROPS = {
                      "Arca.Props.C01.all_steps_completed_nothing_waits_for_a_step"],
         "pins": RUNLOOP_PINS,
         "streams": [S_loop(mon_c01_loop), S_loop(mon_c01_loop, fanin=True), S_engine(M.mon_c01_engine), S_prompt("C01"),
-                    S_foreach_close(M.mon_c01_engine),
+                    S_foreach_close(M.mon_c01_engine), S_foreach(M.mon_c01_engine),
                     S_engine(M.mon_c01_engine, extra=["-cancel", "random"], name="engine-cancel", n=(60, 600), seed_off=29)],
         "rule": LOOP_RULE + "; fan-in shape: one output fed by a failing step and 45 others; " + ENGINE_RULE,
     },
@@ -155,10 +164,12 @@ PROPS = {
         "theorems": ["Arca.Props.C03.result_sound", "Arca.Props.C03.result_is_the_output",
                      "Arca.Props.C03.no_output_reported_when_last_output_fails"],
         "pins": RUNLOOP_PINS + RESOLVE_PINS,
-        "streams": [S_loop(), S_engine(M.mon_c03_engine, n=(250, 2500), seed_off=7),
+        "streams": [S_loop(), S_engine(M.both(M.mon_c03_engine, M.no_eval_failure("C03", "an error was returned although the expressions of a producible output evaluate")),
+                                       n=(250, 2500), seed_off=7),
                     # runs cancelled by the caller: "if no declared output is producible the run returns an error and no output"
                     S_engine(M.result_shape("C03"), extra=["-cancel", "random"], name="engine-cancel", n=(60, 600), seed_off=29),
-                    S_engine(M.mon_c03_engine, extra=["-tags", "-multiref"], name="engine-multiref", n=(150, 1500), seed_off=43)],
+                    S_engine(M.both(M.mon_c03_engine, M.no_eval_failure("C03", "an error was returned although the expressions of a producible output evaluate")),
+                             extra=["-tags", "-multiref"], name="engine-multiref", n=(150, 1500), seed_off=43)],
         "rule": LOOP_RULE + " - the returned output must be one the model admits; " + ENGINE_RULE +
                 " - the returned output is recomputed declaratively from the logged step outcomes",
     },
